@@ -310,6 +310,35 @@ def run(ctx):
                "uint16 counter does — from that chunk on a conforming peer derives a different nonce and every chunk fails authentication, in both directions")
     ctx.floor("S3", "integer chunk counters of nonce generators", 1, n_cnt)
 
+    # one SHAKE stream per direction: V2Ray's ShakeSizeParser draws the padding length and the length mask of every chunk alternately from ONE
+    # reader seeded with the body IV. Two readers (one for the masker, one for the padding generator) both start at offset 0 and produce a
+    # different mask sequence from the first chunk on — self-consistent, but no other implementation can follow it.
+    shake_types = {b.impl_self_def for b in bodies if b.impl_self_def and any(c.name == "XofReader::read" for (_, c, _) in b.calls())}
+    users = {}
+    for b in bodies:
+        if not b.impl_self_def or b.impl_self_def in shake_types or b.root != b.defp:
+            continue
+        for (blk, c, t) in b.calls():
+            if (c.self_def or "") in shake_types and c.method != "new" and t["args"]:
+                rp = op_place(t["args"][0])
+                if rp is None:
+                    continue
+                chains = set()
+                for l in b.slice_back([rp[0]], stop_call=lambda cc: True)[0] | {rp[0]}:
+                    for d in b.defs().get(l, []):
+                        if d[0] == "assign" and d[3]["rv"]["k"] == "ref" and d[3]["rv"]["p"][0] == 1:
+                            chains.add(tuple(str(e[2] if e[0] == "field" and len(e) > 2 else e[1]) for e in d[3]["rv"]["p"][1] if e[0] in ("field", "downcast")))
+                for ch in chains:
+                    users.setdefault(b.impl_self_def, {}).setdefault(ch, []).append((b, t))
+    ctx.floor("S3", "codec types drawing from a SHAKE reader", 1, len(users))
+    for ty_, chs in sorted(users.items()):
+        ok = len(chs) == 1
+        (b0, t0) = sorted(chs.items())[0][1][0]
+        ctx.ob("S3", ty_, "one-shake-stream-for-mask-and-padding", loc(t0["sp"]), ok,
+               f"every draw (padding length, length mask) goes through the one reader at self.{'.'.join(sorted(chs)[0])}" if ok else
+               f"draws go through {len(chs)} different readers ({', '.join('self.' + '.'.join(c) for c in sorted(chs))}): the specification's single SHAKE stream, drawn alternately "
+               "for padding length and length mask, is replaced by independent streams that both start at offset 0 — masked lengths differ from a conforming peer's from chunk 0 on", ordinal=False)
+
     # ---------------- S4 session sibling agreement ----------------------------------------------
     maps = {}
     for b in bodies:
